@@ -117,7 +117,7 @@ func (e *Env) judge(name string, obs []*Obs) ([]Failure, JudgeStats, error) {
 			sh.wall = res.WallSeconds
 			b, rerr := os.ReadFile(filepath.Join(work, outFile))
 			if rerr != nil || !res.NoError {
-				sh.err = fatalf("trace judging failed on shard %d (TLC did not consume the trace):\n%s", sh.idx, tail(res.Out, 40))
+				sh.err = fatalf("trace judging failed on shard %d (TLC did not consume the trace):\n%s", sh.idx, tail(res.Out, 140))
 				return
 			}
 			var v struct {
@@ -258,7 +258,7 @@ func features(o *Obs) map[string]string {
 	return f
 }
 
-func (fd *Finding) matches(clause string, o *Obs) bool {
+func (fd *Finding) matches(clause string, o *Obs, cofailed map[string]bool) bool {
 	if fd.Status == "fixed" {
 		return false
 	}
@@ -272,6 +272,9 @@ func (fd *Finding) matches(clause string, o *Obs) bool {
 		return false
 	}
 	f := features(o)
+	for c := range cofailed {
+		f["failed."+c] = "yes"
+	}
 	for k, allowed := range fd.Match {
 		v, present := f[k]
 		if !present {
@@ -313,10 +316,21 @@ func clauseProperty(clause string) string {
 // classify splits failures into violations of `prop`, known findings, drift.
 func classify(prop string, fails []Failure, findings []Finding) *Outcome {
 	out := &Outcome{Property: prop, Known: map[string]int{}, KnownText: map[string]string{}, Drift: map[string]int{}, Other: map[string]int{}}
+	co := map[*Obs]map[string]bool{}
+	for _, f := range fails {
+		if co[f.Obs] == nil {
+			co[f.Obs] = map[string]bool{}
+		}
+		co[f.Obs][f.Clause] = true
+	}
 	for _, f := range fails {
 		p := clauseProperty(f.Clause)
 		if p == "R" {
 			out.Drift[f.Clause]++
+			if out.Drift[f.Clause] <= 3 && os.Getenv("VERIF_DEBUG") != "" {
+				b, _ := json.Marshal(f.Obs)
+				fmt.Fprintf(os.Stderr, "DRIFT %s: %s\n  hist=%v\n  stderr=%s\n  obs=%s\n", f.Clause, f.Obs.describe(), f.Obs.hist, f.Obs.stderr, b)
+			}
 			continue
 		}
 		if p != prop {
@@ -326,7 +340,7 @@ func classify(prop string, fails []Failure, findings []Finding) *Outcome {
 		matched := false
 		for i := range findings {
 			fd := &findings[i]
-			if fd.Property == prop && fd.matches(f.Clause, f.Obs) {
+			if fd.Property == prop && fd.matches(f.Clause, f.Obs, co[f.Obs]) {
 				out.Known[fd.ID]++
 				out.KnownText[fd.ID] = fd.Text
 				matched = true
